@@ -25,10 +25,12 @@ MANIFEST = dict(
          "convention); separation = gcirc(point 1, point 2, degrees) with matching units; a pair is counted once, in bin "
          "trunc((log10(scale*d) - log10(rmin))/binsize) with binsize = (log10 rmax - log10 rmin)/nbin, only when "
          "0 <= bin < nbin AND the quotient is not negative (a truncating cast maps (-1,0) to bin 0: pairs just below rmin would be counted); "
+         "no condition necessary for the count is a relational test on the unwrapped difference of right ascensions (pairs across the ra = 0/360 seam); "
          "(4) python: reverse indices are built by histogram(htmid2 - minid) anchored at 0 with unit bins (binsize 1 and none of the parameters through which "
          "the histogram code, by its own source, replaces the bin size: nbin, nperbin) so that bin k is id minid + k "
          "whatever minid the caller supplies; sizes checked; bin edges from the same rmin, rmax, nbin; (5) vendored code, necessary conditions only: a method that "
-         "handles a stored node hands the node's HTM id (not its position in the node array) to the result lists and searches all four stored children; every edge "
+         "handles a stored node hands the node's HTM id (not its position in the node array) to the result lists and searches all four stored children; every "
+         "function that is given the three vertices of a triangle and applies a two-vertex helper (eSolve) to its edges applies it to all three; every edge "
          "test `(a x b) . v <rel> t` of the id descent (idByPoint, isInside) accepts the products within rounding of 0 (t at least one unit roundoff on the rejected "
          "side), so that a position on an edge shared by sibling triangles is accepted by one of them at every level; the edge/circle quadratic (eSolve) answers 'no crossing' on the "
          "ground of its discriminant only where it is negative; (6) pair counting searches, for point i1, the triangle lists of an intersection of the same iteration and leaves no loop over "
@@ -46,7 +48,7 @@ SRC = "esutil/htm/htmc.cc"
 
 # rules that keep their verdict however the code is laid out (decided by term equality, effect analysis or dominance over
 # resolved calls); every other rule of this check is a template rule (vcheck.core.Check.obt)
-SEMANTIC = ('R13.1::lookup_id::ra-read-through', 'R13.1::lookup_id::dec-read-through', 'R13.1::HTM.lookup_id::output-int64-same-size', 'R13.1::HTM.lookup_id::size-check', 'R13.2::HTM.intersect::flag-mapping', 'R13.3::cbincount::lower-edge-guard-on-untruncated-value', 'R13.3::cbincount::upper-bin-guard', 'R13.3::cbincount::per-point-value', 'R13.3::cbincount::cover-computed-for-every-point', 'R13.3::cbincount::candidate-loops-run-to-their-end', 'R13.4', 'R13.5', 'R13.6', 'R13.7')
+SEMANTIC = ('R13.1::lookup_id::ra-read-through', 'R13.1::lookup_id::dec-read-through', 'R13.1::HTM.lookup_id::output-int64-same-size', 'R13.1::HTM.lookup_id::size-check', 'R13.2::HTM.intersect::flag-mapping', 'R13.3::cbincount::lower-edge-guard-on-untruncated-value', 'R13.3::cbincount::upper-bin-guard', 'R13.3::cbincount::per-point-value', 'R13.3::cbincount::cover-computed-for-every-point', 'R13.3::cbincount::candidate-loops-run-to-their-end', 'R13.3::cbincount::only-the-separation-drops-a-pair', 'R13.4', 'R13.5', 'R13.6', 'R13.7')
 
 
 def run(chk):
@@ -75,6 +77,10 @@ def run(chk):
     _c12.node_walk_rules(chk, rule="R13.6")
     # ... and the edge/circle quadratic answers 'no crossing' only for a negative discriminant (shared with C12)
     _c12.edge_crossing_rule(chk, rule="R13.6")
+    # ... and a function that is given the three vertices of a triangle and asks a two-vertex helper (eSolve) whether the circle crosses an
+    # edge asks it for all three edges {v0,v1}, {v1,v2}, {v2,v0}: a circle that enters the triangle only across an edge that is never asked
+    # about (no vertex inside, centre outside) is otherwise rejected with every position it holds (shared with C12)
+    _c12.triangle_edge_rule(chk, rule="R13.6")
     descent_tolerance(chk)
 
 
@@ -175,10 +181,13 @@ def lookup(chk, repo, fs):
            "the output is a new int64 array of ra.size handed to the extension as (ra, dec, out) and returned%s" % note)
 
 
-def _emptiness(test, lab, names):
+def _emptiness(test, lab, names, res=None):
     """True if the outcome `lab` of the test says that <name>.size is 0 for one of the names (`ra.size == 0`, `not ra.size`, `ra.size < 1`,
-    `len(ra) == 0` taken; `ra.size`, `ra.size != 0`, `ra.size > 0`, `ra.size >= 1` not taken)"""
+    `len(ra) == 0` taken; `ra.size`, `ra.size != 0`, `ra.size > 0`, `ra.size >= 1` not taken).  res: maps an operand of the test to the
+    value it stands for at the test (a local that holds `ra.size`)"""
     def is_size(e):
+        if res is not None:
+            e = res(e)
         if isinstance(e, ast.Attribute) and e.attr == "size" and isinstance(e.value, ast.Name) and e.value.id in names:
             return True
         return isinstance(e, ast.Call) and call_name(e) == "len" and len(e.args) == 1 and isinstance(e.args[0], ast.Name) and e.args[0].id in names
@@ -201,7 +210,7 @@ def _emptiness(test, lab, names):
     return False
 
 
-def _reaches_nonempty(view, a, b, avoiding, names):
+def _reaches_nonempty(view, a, b, avoiding, names, res=None):
     """is there a path a ->+ b that avoids the given nodes and takes no branch outcome that says <name>.size is 0 (on such a path
     the array may have elements)"""
     avoid = {x.id for x in avoiding}
@@ -222,7 +231,7 @@ def _reaches_nonempty(view, a, b, avoiding, names):
         t = getattr(getattr(n, "ast", None), "test", None)
         for j in g.successors(i):
             labs = set(g[i][j]["labels"]) - {"back"}
-            if n.kind == "branch" and isinstance(t, ast.AST) and labs and all(_emptiness(t, lab, names) for lab in labs):
+            if n.kind == "branch" and isinstance(t, ast.AST) and labs and all(_emptiness(t, lab, names, (lambda e, n=n: res(e, n)) if res else None) for lab in labs):
                 continue
             todo.append(j)
     return False
@@ -261,19 +270,38 @@ def lookup_output_rule(fi, size_checked=False):
         if isinstance(a, ast.Assign) and len(a.targets) == 1 and isinstance(a.targets[0], ast.Name) and a.targets[0].id == name:
             return dn
         return None
+
+    def resolve(e, at):
+        """a local that holds one value stands for that value: a single plain assignment `name = <expr>` reaches `at`, and every name the
+        expression is computed from is bound at `at` by the same definitions as at the assignment (npts = ra.size, hoisted)"""
+        hops = 0
+        while isinstance(e, ast.Name) and hops < 4:
+            dn_ = def_of(e.id, at)
+            if dn_ is None:
+                break
+            val = dn_.ast.value
+            used = {x.id for x in ast.walk(val) if isinstance(x, ast.Name)}
+            if e.id in used or any(RIN.get(dn_.id, {}).get(nm, set()) != RIN.get(at.id, {}).get(nm, set()) for nm in used):
+                break
+            e, hops = val, hops + 1
+        return e
     calls = [(n, c) for n, c in rules.calls_named(cfg, "lookup_id")]
     verdicts, notes = [], []
     for r in rets:
         v = getattr(r.ast, "value", None)
-        tests = [(b.ast.test, lab) for b, lab in view.controlling_branches(r) if b.kind == "branch" and isinstance(getattr(b.ast, "test", None), ast.AST)]
+        tests = [(b.ast.test, lab, b) for b, lab in view.controlling_branches(r) if b.kind == "branch" and isinstance(getattr(b.ast, "test", None), ast.AST)]
         checked = size_checked and bool(rbranches) and all(view.dominates(b, r) for b in rbranches)
-        empty = any(_emptiness(t, lab, ("ra", "dec") if checked else ("ra",)) for t, lab in tests)
+        empty = any(_emptiness(t, lab, ("ra", "dec") if checked else ("ra",), lambda e, b=b: resolve(e, b)) for t, lab, b in tests)
         dn = None
         if isinstance(v, ast.Name):
             dn = def_of(v.id, r)
             size = alloc_of(dn.ast.value) if dn is not None else None
+            if size is not None:
+                size = resolve(size, dn)
         else:
             size = alloc_of(v) if v is not None else None
+            if size is not None:
+                size = resolve(size, r)
         if size is None:
             e_ = dn.ast.value if dn is not None else v
             known_alloc = isinstance(e_, ast.Call) and call_name(e_) in ("zeros", "empty", "ones") and (kwarg(e_, "dtype") is None or isinstance(kwarg(e_, "dtype"), ast.Constant))
@@ -290,7 +318,7 @@ def lookup_output_rule(fi, size_checked=False):
             continue
         # the extension call fills this very array on every path from its allocation to the return
         good = [cn for cn, c in calls if dn is not None and len(c.args) == 3 and [norm(x) for x in c.args] == ["ra", "dec", v.id]]
-        if dn is None or _reaches_nonempty(view, dn, r, good, ("ra", "dec") if checked else ("ra",)):
+        if dn is None or _reaches_nonempty(view, dn, r, good, ("ra", "dec") if checked else ("ra",), resolve):
             wrong = [norm(c)[:60] for cn, c in calls if cn not in good]
             verdicts.append(False)
             notes.append("line %s: the array returned can reach the return without having been filled by lookup_id(ra, dec, <that array>) although ra.size may be "
@@ -448,6 +476,25 @@ def bincount_c(chk, decl, fs=None):
                 elif l.get("kind") == "ArraySubscriptExpr" and strip(l["inner"][0]).get("kind") == "DeclRefExpr":
                     # `cells[bin] += 1` through the data pointer of an array
                     incs.append((n, render(strip(l["inner"][0])), render(c["inner"][1]), render(strip(l["inner"][1]))))
+            elif c.get("kind") == "UnaryOperator" and c.get("opcode") == "++" and c.get("inner"):
+                # the same statement spelt `++(*cell)` / `(*cell)++` / `++cells[bin]`: an increment by one of the cell
+                l = strip(c["inner"][0])
+                if l.get("kind") == "UnaryOperator" and l.get("opcode") == "*":
+                    incs.append((n, render(l["inner"][0]), "1", None))
+                elif l.get("kind") == "ArraySubscriptExpr" and strip(l["inner"][0]).get("kind") == "DeclRefExpr":
+                    incs.append((n, render(strip(l["inner"][0])), "1", render(strip(l["inner"][1]))))
+            elif c.get("kind") == "BinaryOperator" and c.get("opcode") == "=":
+                # ... or `*cell = *cell + k`
+                l, r = strip(c["inner"][0]), strip(c["inner"][1])
+                if l.get("kind") in ("UnaryOperator", "ArraySubscriptExpr") and (l.get("kind") != "UnaryOperator" or l.get("opcode") == "*") \
+                        and r.get("kind") == "BinaryOperator" and r.get("opcode") == "+":
+                    ra_, rb_ = r["inner"]
+                    other = rb_ if render(strip(ra_)) == render(l) else (ra_ if render(strip(rb_)) == render(l) else None)
+                    if other is not None:
+                        if l.get("kind") == "UnaryOperator":
+                            incs.append((n, render(l["inner"][0]), render(strip(other)), None))
+                        elif strip(l["inner"][0]).get("kind") == "DeclRefExpr":
+                            incs.append((n, render(strip(l["inner"][0])), render(strip(other)), render(strip(l["inner"][1]))))
     ok = len(incs) == 1 and incs[0][2] == "1"
     chk.ob("R13.3", "cbincount::one-count-site", ok, f.where, "one `*cell += 1` counts a pair")
     if not ok:
@@ -464,10 +511,23 @@ def bincount_c(chk, decl, fs=None):
             dcall = [x for x in walk(cdef[0][1]) if x.get("kind") == "CallExpr" and callee_name(x) in ("PyArray_DATA", "PyArray_BYTES")]
             if len(dcall) == 1:
                 ar = (ref_desc(cfront.call_args(dcall[0])[0]), csub)
+    if ar is not None and ar[0][0] == "local":
+        # a local whose every definition is a (cast) copy of one other local stands for that local (a hoisted `PyArrayObject *cnt =
+        # (PyArrayObject *) counts_array;`)
+        nm, hops = ar[0][1], 0
+        while hops < 4:
+            srcs = {ref_desc(rhs) for m_ in cfg.nodes for v, rhs in node_defs(m_) if v == nm}
+            written = any(isinstance(m_.c, dict) and x.get("kind") in ("CompoundAssignOperator", "UnaryOperator") and x.get("opcode") in ("++", "--", "+=", "-=")
+                          and render(strip(x["inner"][0])) == nm for m_ in cfg.nodes if isinstance(m_.c, dict) for x in walk(m_.c) if x.get("inner"))
+            if len(srcs) != 1 or written or next(iter(srcs))[0] != "local":
+                break
+            nm, hops = next(iter(srcs))[1], hops + 1
+        ar = (("local", nm), ar[1])
     binvar = ar[1] if ar else None
     outs = [v for n in cfg.nodes for v, rhs in node_defs(n) if "PyArray_API[183]" in render(rhs) and "NPY_LONG" in render(rhs)]
     chk.ob("R13.3", "cbincount::count-cell-is-bin-of-output", ar is not None and ar[0][1] in outs, f.w(cn), "the cell is counts[bin] of the int64 output array")
     tests = f.tests_over(cn)
+    pair_filter_rule(chk, f, cn, {("param", p_ra1): "lon", ("param", p_ra2): "lon", ("param", p_dec1): "lat", ("param", p_dec2): "lat"})
     # bin index definition
     bd = f.defs_at(cn, binvar) if binvar else []
     okb = False
@@ -698,6 +758,115 @@ def bincount_c(chk, decl, fs=None):
             if cand not in _c12._declared_in(cfg, body) and not _c12.container_cleared(fs or {}, body, cand):
                 okl = None          # a list that outlives the iteration and is not emptied for every point: not judged here
     chk.ob("R13.3", "cbincount::full-and-partial-triangles-are-candidates", okl, f.where, "both triangle lists are searched (%s)" % copied)
+
+
+def _coordinate_dependence(f, e, n, src, lin=True, seen=None, depth=0):
+    """what the value of expression e at CFG node n is computed from, followed through the definitions of locals that reach n:
+    'dist' - the value of a gcirc(...) call (a separation, whatever went into it); 'lat' - an element of a latitude array; 'lon-lin' - an
+    element of a longitude array that reaches e through + - * / unary minus, fabs/abs, casts and single-definition locals only (a value
+    that keeps growing with the difference of the right ascensions: not periodic in them); 'lon' - an element of a longitude array that
+    passes through anything else on the way (a function call - fmod, cos, fmin -, a conditional expression, a local with several reaching
+    definitions: the ways a difference is wrapped at 360).  src: array descriptor -> 'lon' / 'lat'"""
+    from checks import C12 as _c12
+    seen = seen if seen is not None else set()
+    out = set()
+    e = strip(e)
+    if not isinstance(e, dict) or depth > 40:
+        return out
+    k = e.get("kind")
+
+    def tag(role):
+        return ("lon-lin" if lin else "lon") if role == "lon" else role
+
+    def sub(x, keep):
+        return _coordinate_dependence(f, x, n, src, lin and keep, seen, depth + 1)
+    if k in ("CallExpr", "CXXMemberCallExpr", "CXXOperatorCallExpr"):
+        cn_ = callee_name(e)
+        if cn_ == "gcirc":
+            return {"dist"}
+        args = cfront.call_args(e)
+        if cn_ in ("PyArray_BYTES", "PyArray_DATA") and args:
+            rd = ref_desc(args[0])
+            rd = f.alias.get(rd[1], rd) if rd[0] == "local" else rd
+            if src.get(rd):
+                out.add(tag(src[rd]))
+            return out
+        if cn_ in _c12.HELPERS and cn_ not in ("PyArray_STRIDES", "PyArray_STRIDE"):
+            ar = f.aread(e)
+            if ar is not None and src.get(ar[0]):
+                out.add(tag(src[ar[0]]))
+                return out
+        keep = cn_ in ("fabs", "abs", "labs", "fabsf", "fabsl") and len(args) == 1
+        for a in args:
+            out |= sub(a, keep)
+        return out
+    if k == "DeclRefExpr":
+        rd = e.get("referencedDecl", {})
+        nm = rd.get("name")
+        if rd.get("kind") != "VarDecl" or nm is None:
+            return out
+        ds = f.defs_at(n, nm)
+        for dn, rhs in ds:
+            if (dn.id, nm) in seen:
+                continue
+            seen.add((dn.id, nm))
+            out |= _coordinate_dependence(f, rhs, dn, src, lin and len(ds) == 1, seen, depth + 1)
+        return out
+    keep = (k == "BinaryOperator" and e.get("opcode") in ("+", "-", "*", "/")) or (k == "UnaryOperator" and e.get("opcode") in ("-", "+", "*", "&")) \
+        or k == "ArraySubscriptExpr"
+    for c in e.get("inner", []) or []:
+        if isinstance(c, dict):
+            out |= sub(c, keep)
+    return out
+
+
+def pair_filter_rule(chk, f, cn, src):
+    """R13.3: the count equals a brute-force count of all pairs, so a member of a candidate triangle is kept out of the count by its
+    separation (and the bin computed from it) alone.  Every other condition on the way to the count that is computed from the coordinates
+    of the two points is an additional filter.  Positively wrong among them: a relational test, necessary for the count, on a value that
+    depends on the right ascensions only through arithmetic and |.| (`fabs(ra2 - ra1) > t`, `ra2 - ra1 > t`, the same through locals) -
+    right ascension is periodic, the difference of two points next to each other across the ra = 0/360 seam is near 360, so whatever the
+    threshold below 360 such a test drops pairs that are within the search radius.  A test on a wrapped difference or on latitudes may
+    be implied by the separation; that is not derived here (no verdict)."""
+    view = f.view
+    bad, unknown = [], []
+
+    def atoms(e, pos, required, node):
+        e = strip(e)
+        k = e.get("kind")
+        if k == "UnaryOperator" and e.get("opcode") == "!":
+            return atoms(e["inner"][0], not pos, required, node)
+        if k == "BinaryOperator" and e.get("opcode") in ("&&", "||"):
+            req = required and ((e["opcode"] == "&&") == pos)
+            atoms(e["inner"][0], pos, req, node)
+            atoms(e["inner"][1], pos, req, node)
+            return
+        relational = k == "BinaryOperator" and e.get("opcode") in ("<", "<=", ">", ">=")
+        if relational:
+            ks = _coordinate_dependence(f, e["inner"][0], node, src) | _coordinate_dependence(f, e["inner"][1], node, src)      # each side as a value
+        else:
+            ks = _coordinate_dependence(f, e, node, src)
+        if not ks & {"lon-lin", "lon", "lat"}:
+            return
+        txt = "%s%s" % ("" if pos else "not ", render(e))
+        if "lon-lin" in ks and "dist" not in ks and required and relational:
+            bad.append((txt, f.w(node)))
+        else:
+            unknown.append((txt, f.w(node)))
+    try:
+        for b, lab in view.controlling_branches(cn):
+            if b.kind in ("branch", "loop") and isinstance(b.c, dict) and lab in ("T", "F"):
+                atoms(b.c, lab == "T", True, b)
+    except (AnalysisError, KeyError, TypeError, IndexError, RecursionError) as e_:
+        unknown.append(("conditions not evaluated: %s" % str(e_)[:80], f.w(cn)))
+    ok = False if bad else (None if unknown else True)
+    chk.ob("R13.3", "cbincount::only-the-separation-drops-a-pair", ok, bad[0][1] if bad else (unknown[0][1] if unknown else f.w(cn)),
+           "between the members of a candidate triangle and the count no condition computed from the coordinates of the two points other than the "
+           "separation gcirc(...) and the bin derived from it decides whether the pair is counted%s%s"
+           % ("" if not bad else " -- the count requires `%s`: a test on the unwrapped difference of right ascensions; the two points of a pair that straddles the "
+              "ra = 0/360 seam differ by nearly 360 in right ascension, so every such pair is dropped from the counts although its separation is in range"
+              % "`, `".join(t for t, _ in bad[:3]),
+              "" if not unknown else " -- coordinate-dependent condition(s) not recognised as implied by the separation: %s" % "; ".join("`%s`" % t for t, _ in unknown[:3])))
 
 
 def _outer_loop(f, p_ra):
